@@ -45,9 +45,9 @@ PROPS["C01"] = {
 }
 
 PROPS["C02"] = {
-    "quick": [rapid("TestC02", 30000)],
-    "thorough": [rapid("TestC02", 150000, shards=16)],
-    "rule": "rapid: G-doc document x document-aware projection-heavy expression ([*], .*, [], [?cond], slices, chained/nested, null-producing and non-null-preserving right-hand sides, functions after projections); oracle: reference evaluator with bag-aware comparison (object-member order free, content exact). Non-trivial: a projection applied its RHS to at least one element (kept or dropped-null), or hit a non-matching LHS, or flattened nested arrays, or a filter rejected an element. Ambiguous cases (order-sensitive use of member lists) are discarded and counted.",
+    "quick": [rapid("TestC02", 30000), plain("TestC02Shapes", shards=4)],
+    "thorough": [rapid("TestC02", 150000, shards=16), plain("TestC02Shapes", shards=4)],
+    "rule": "(a) shape grid: 16 left-hand sides x 18 projection operator chains ([*], .*, [], [?..], slices, two-level combinations) x 18 right-hand sides (null-preserving and not: .k, [0], .type(@), .to_string(@), .not_null(@,1), .[@], .{v:@}, nested projections) x 7 terminators (pipe, paren+index, ||) on 11 documents with empty, heterogeneous, null-containing and nested containers; (b) rapid: G-doc document x document-aware projection-heavy expression ([*], .*, [], [?cond], slices, chained/nested, null-producing and non-null-preserving right-hand sides, functions after projections); oracle: reference evaluator with bag-aware comparison (object-member order free, content exact). Non-trivial: a projection applied its RHS to at least one element (kept or dropped-null), or hit a non-matching LHS, or flattened nested arrays, or a filter rejected an element. Ambiguous cases (order-sensitive use of member lists) are discarded and counted.",
     "assumptions": COMMON_ASSUMPTIONS,
     "min_nontrivial": 1000,
     "technique": "differential property-based testing against a reference evaluator with bag-aware (order-insensitive for object members) comparison",
@@ -79,9 +79,9 @@ prop("C04",
      min_nontrivial=1000)
 
 prop("C07",
-     quick=[plain("TestC07Exhaustive"), rapid("TestC07Random", 20000)],
-     thorough=[plain("TestC07Exhaustive"), rapid("TestC07Random", 100000, shards=16)],
-     rule="exhaustive: 24-value universe (every type, emptiness, nesting) squared x 8 binary operators x 3 carriers (literals, document fields, filter condition), unary not, short-circuit with an erroring right operand, filters over the universe; random: nestings of || && ! and the six comparators (depth <= 6, also inside filters) on G-doc documents. Oracle: reference definitions of truthiness, operand-value-returning ||/&&, deep equality, numbers-only ordering. Non-trivial: every exhaustive cell (distinct by carrier, operator, operands); random cases with >= 2 evaluated operators.",
+     quick=[plain("TestC07Exhaustive"), rapid("TestC07Random", 20000), rapid("TestC07Near", 20000)],
+     thorough=[plain("TestC07Exhaustive"), rapid("TestC07Random", 100000, shards=8), rapid("TestC07Near", 100000, shards=8)],
+     rule="exhaustive: 36-value universe (incl. objects of equal size with different key sets, null members, reordered arrays, number vs numeric string) (every type, emptiness, nesting) squared x 8 binary operators x 3 carriers (literals, document fields, filter condition), unary not, short-circuit with an erroring right operand, filters over the universe; random: nestings of || && ! and the six comparators (depth <= 6, also inside filters) on G-doc documents; and comparisons between a generated value and a structurally close value (renamed key, null vs missing member, reordered/extended array, number off by one, number vs string) in 5 carriers. Oracle: reference definitions of truthiness, operand-value-returning ||/&&, deep equality, numbers-only ordering. Non-trivial: every exhaustive cell (distinct by carrier, operator, operands); random cases with >= 2 evaluated operators.",
      technique="exhaustive truth tables over a value universe + random operator nestings, differential vs reference evaluator",
      level_text="The operand universe is enumerated completely for every operator and carrier; nestings are explored randomly.",
      min_nontrivial=5000)
@@ -95,9 +95,9 @@ prop("C08",
      min_nontrivial=10000)
 
 prop("C09",
-     quick=[plain("TestC09Universe"), rapid("TestC09ToNumber", 20000), rapid("TestC09Random", 20000)],
-     thorough=[plain("TestC09Universe"), rapid("TestC09ToNumber", 200000, shards=4), rapid("TestC09Random", 100000, shards=16)],
-     rule="(a) each of the 26 functions on every well-typed tuple over a typed universe (numbers incl. -0/1e15, strings incl. multi-byte/astral/number-like/non-finite spellings, number/string/object/mixed arrays with duplicates and ties, objects with colliding keys, 11 expression references); (b) to_number on strings over number-ish characters: finite-or-null, exact for JSON numbers, null for clearly non-numeric; (c) random calls and expressions with calls on G-doc documents and on large arrays (<= 120 objects with many key ties, multi-byte strings). Oracle: reference function library (stable insertion sort, first extremal element, code-point string handling, later-wins merge, to_string as 'any JSON text decoding to the argument'), bag-aware for keys/values. Non-trivial: the reference evaluation succeeded and at least one function call was evaluated; per-function success counts are in classes (universe-success.<name>; zero for any function is a harness error).",
+     quick=[plain("TestC09Universe"), rapid("TestC09ToNumber", 20000), rapid("TestC09Random", 20000), rapid("TestC09Large", 6000, shards=2)],
+     thorough=[plain("TestC09Universe"), rapid("TestC09ToNumber", 200000, shards=4), rapid("TestC09Random", 100000, shards=8), rapid("TestC09Large", 40000, shards=8)],
+     rule="(a) each of the 26 functions on every well-typed tuple over a typed universe (numbers incl. -0/1e15, strings incl. multi-byte/astral/number-like/non-finite spellings, number/string/object/mixed arrays with duplicates and ties, objects with colliding keys, 11 expression references); (b) to_number on strings over number-ish characters: finite-or-null, exact for JSON numbers, null for clearly non-numeric; (c) random calls and expressions with calls on G-doc documents and on large arrays (<= 120 objects with many key ties, multi-byte strings); (d) 34 array-function expressions (sort_by/max_by/min_by with number, string, negated and computed keys, sort, max, min, sum, avg, reverse, join, map, nested sorts) on arrays of 0..300 elements with 1..6 distinct keys (heavy ties). Oracle: reference function library (stable insertion sort, first extremal element, code-point string handling, later-wins merge, to_string as 'any JSON text decoding to the argument'), bag-aware for keys/values. Non-trivial: the reference evaluation succeeded and at least one function call was evaluated; per-function success counts are in classes (universe-success.<name>; zero for any function is a harness error).",
      technique="differential vs an independent reference function library: exhaustive typed universe per function + random nested calls",
      level_text="Exact equality with the specification's value, hence ordering, permutation and stability of sort_by, first-extremal of max_by/min_by etc. are checked in both directions at once.",
      min_nontrivial=3000)
